@@ -149,10 +149,8 @@ def check_drain_publish(ctx, facts, cfg, crec):
             asg = [n for n in mm.walk() if n["k"] == "BinaryOperator" and n["op"] == "=" and is_this_field(n["lhs"], "_writer_pos_cache") and
                    (atomic_op(strip(n["rhs"], casts=True)) or {}).get("kind") == "load" and is_this_field(atomic_op(strip(n["rhs"], casts=True))["obj"], "_atomic_writer_pos")]
             ap = [p for n in asg for p in gg.positions(n)]
-            ends = gg.return_nodes(lambda r: const_val(r.get("val")) == 1)
-            if not ends:
-                # 'return <comparison>': every path counts
-                ends = gg.return_nodes()
+            # the exits that can report 'empty': `return true` and `return <comparison>`; a literal `return false` reports 'not empty'
+            ends = gg.return_nodes(lambda r: const_val(r.get("val")) != 0)
             fresh_ok = bool(ap) and bool(ends) and not gg.exists_path([gg.entry_node], ends, avoid_nodes=ap)
         ctx.ob("C09.R1c", "%s::empty:writer-cache-refreshed" % tag, fresh_ok,
                "whenever the queue is reported empty, _writer_pos_cache — the value commit_read's 'drained' test compares _reader_pos with — "
